@@ -55,6 +55,7 @@ def check(ctx, tier):
     mask_rule(ctx, tk)
     pack_rules(ctx, tk)
     window_mask_order(ctx, tk)
+    window_admitted(ctx, tk)
     offset_contract(ctx, tk)
     fs = [cls.methods[n] for n in ("pack", "unpack", "__getitem__", "sliding_window")]
     tk.purity("C13.e", fs, "packing and reading do not modify the caller's arrays or the packed data", content_only=True)
@@ -205,6 +206,48 @@ def window_mask_order(ctx, tk):
         bo = dict(c.a[2]).get("bitorder")
         ctx.decide("C13.b", f, "entries are unpacked least-significant first (the order pack() shifts them in)", True if (bo is not None and is_const(bo, "little")) else False,
                    "np.unpackbits defaults to bitorder='big': the entries of every byte come back reversed", node=c.node, key="bitorder", engine="KB")
+
+
+def window_admitted(ctx, tk):
+    """every window with w * b <= 64 is served, the widest one (w == 64 / b entries, the whole register) included: an
+    argument check on the window width must admit equality with the register capacity"""
+    from ..guards import refusals
+    g = ctx.func(BA + "sliding_window")
+    ga = ctx.fa(g)
+    wname = g.params[1] if len(g.params) > 1 else None
+    what = "no argument check refuses a window that fits a register (w * b <= register size, the full register included)"
+
+    def mentions_w(e):
+        return any(isinstance(x, ast.Name) and x.id == wname for x in ast.walk(e))
+
+    def capacity(e):
+        return any(isinstance(x, ast.Attribute) and x.attr in ("_n_entries_per_register", "_register_size") for x in ast.walk(e)) or \
+            (isinstance(e, ast.Constant) and e.value == 64)
+    verdict, why, node = True, "", None
+    for tn, truth in refusals(ga):
+        if not mentions_w(tn.ast):
+            continue
+        for x in ast.walk(tn.ast):
+            if not isinstance(x, ast.Compare):
+                continue
+            for l, op, r in zip([x.left] + x.comparators[:-1], x.ops, x.comparators):
+                if mentions_w(l) and capacity(r):
+                    rel = type(op)
+                elif mentions_w(r) and capacity(l):
+                    rel = {ast.Lt: ast.Gt, ast.Gt: ast.Lt, ast.LtE: ast.GtE, ast.GtE: ast.LtE}.get(type(op), type(op))
+                else:
+                    continue
+                # is the comparison in negated position?  (only plain `not` handled; anything else -> unknown)
+                neg = any(isinstance(u, ast.UnaryOp) and isinstance(u.op, ast.Not) and any(y is x for y in ast.walk(u)) for u in ast.walk(tn.ast))
+                refuses_when = truth != neg      # the comparison's own truth value on the refusing edge
+                # equality refused:  pass requires `w < cap` (refusing on its falsity)  /  refuse when `w >= cap` / `w == cap`
+                eq_refused = (rel is ast.Lt and not refuses_when) or (rel in (ast.GtE, ast.Eq) and refuses_when) or (rel is ast.NotEq and not refuses_when)
+                eq_fine = (rel is ast.LtE and not refuses_when) or (rel is ast.Gt and refuses_when)
+                if eq_refused:
+                    verdict, why, node = False, "`%s` refuses the widest legal window (window_size == entries per register, w * b == 64)" % ast.unparse(x), x
+                elif not eq_fine and verdict is True:
+                    verdict, why, node = None, "argument check `%s` not understood" % ast.unparse(x), x
+    ctx.decide("C13.g", g, what, verdict, why, node=node, key="window-admitted", engine="E1")
 
 
 def offset_contract(ctx, tk):
